@@ -1736,6 +1736,82 @@ fn main() {
         });
     }
 
+    // ---- 5b. the genesis signature travels as the hex text of 64 RAW bytes: a decoder that guesses the text
+    //      form from the payload (e.g. "starts with '{' or '[' => JSON") would misread about one signature in a
+    //      hundred.  Deterministic sweep: every value of the first byte, and every JSON-looking two-byte prefix,
+    //      through certificate -> message -> JSON -> certificate (implementation only; no model term).
+    {
+        let mut r = rng.fork();
+        let id = sink.wants();
+        let mut base = rand_cert(&mut r, Some(true));
+        if fixed_bits(base.meta.phi).is_none() {
+            base.meta.phi = 0.65;
+        }
+        let mut failures: Vec<String> = vec![];
+        let mut tried = 0u64;
+        let base_cert = base.real();
+        let mut edits: Vec<Vec<(usize, u8)>> = (0..=255u8).map(|b| vec![(0usize, b)]).collect();
+        for pre in [b"{\"", b"[1", b"[]", b"{}", b"\"a", b"nu", b"tr", b"-1", b"0x", b"  "] {
+            edits.push(vec![(0, pre[0]), (1, pre[1])]);
+        }
+        for e in edits {
+            let gs = GSig { base: 0, edit: Some(e[0]) };
+            let mut bytes = gs.bytes();
+            for (p, v) in &e {
+                bytes[*p] = *v;
+            }
+            let text = hex::encode(&bytes);
+            let mut cert = base_cert.clone();
+            tried += 1;
+            let sig = match hc::catch(|| text.as_str().try_into()) {
+                Some(Ok(sig)) => sig,
+                Some(Err(e)) => {
+                    let e: anyhow::Error = e;
+                    failures.push(format!("signature {}..: its own hex text does not decode: {}", &text[..8], format!("{:#}", e).chars().take(120).collect::<String>()));
+                    continue;
+                }
+                None => {
+                    failures.push(format!("signature {}..: decoding its hex text panicked", &text[..8]));
+                    continue;
+                }
+            };
+            cert.signature = CertificateSignature::GenesisSignature(sig);
+            let res = hc::catch(move || -> Result<bool, String> {
+                let h0 = cert.try_compute_hash().map_err(|e| e.to_string())?;
+                let msg: CertificateMessage = cert.clone().try_into().map_err(|e: anyhow::Error| e.to_string())?;
+                let text = serde_json::to_string(&msg).map_err(|e| e.to_string())?;
+                let msg2: CertificateMessage = serde_json::from_str(&text).map_err(|e| e.to_string())?;
+                let cert2: Certificate = msg2.try_into().map_err(|e: anyhow::Error| format!("{:#}", e))?;
+                let h1 = cert2.try_compute_hash().map_err(|e| e.to_string())?;
+                let same_sig = match (&cert.signature, &cert2.signature) {
+                    (CertificateSignature::GenesisSignature(a), CertificateSignature::GenesisSignature(b)) => a.to_bytes_hex().ok() == b.to_bytes_hex().ok(),
+                    _ => false,
+                };
+                Ok(h0 == h1 && same_sig)
+            });
+            match res {
+                Some(Ok(true)) => {}
+                Some(Ok(false)) => failures.push(format!("signature {}..: hash or signature changed", &text[..8])),
+                Some(Err(e)) => failures.push(format!("signature {}..: {}", &text[..8], e.chars().take(120).collect::<String>())),
+                None => failures.push(format!("signature {}..: panicked", &text[..8])),
+            }
+        }
+        if let Some(id) = id {
+            sink.push(Case {
+                id,
+                kind: "wire-roundtrip/genesis-signature-first-bytes".into(),
+                desc: serde_json::json!({"signatures_tried": tried, "failures": failures.iter().take(8).collect::<Vec<_>>(), "failure_count": failures.len()}),
+                model: None,
+                impl_obs: coq::ol(&[coq::ob(failures.is_empty())]),
+                holds: Some(failures.is_empty()),
+                why: failures.first().map(|f| format!("a valid genesis certificate does not survive the wire: {} ({} of {} signatures)", f, failures.len(), tried)),
+                known: None,
+                nontrivial: true,
+                key: "genesis-signature-first-bytes".into(),
+            });
+        }
+    }
+
     // ---- 6. round trip of genuine chain certificates, and of tampered copies of them: verification
     //      outcome before / after ----
     let rt = tokio::runtime::Builder::new_current_thread().enable_all().build().unwrap();
